@@ -372,7 +372,7 @@ PROPS = {
                 "source text, file mode; when it parses error-free, the REAL printer's output in the 4 print modes (normal, compact, all-parens, compact+all-parens) is lexed by "
                 "the REAL lexer and each token reduced to what an error-free parse reads (type, literal, number class, whitespace-in-front for `(` and `[`); for a tree in the "
                 "fragment fragProg the driver recomputes these tokens from the tree with progToks (any difference = disagreement) and evaluates the theorem's conclusion on the "
-                "observed tokens (the parser model returns the original program); trees outside the fragment are declined (tag outside-<mode>). Families: the operator-pair "
+                "observed tokens (the parser model returns the original program); trees outside the fragment are declined (tags outside-<mode> and outside-c:<innermost construct that keeps it out>). Families: the operator-pair "
                 "family of the format suite, every ordered pair of the 21 binary operators in 6 nesting/statement templates and x 7 prefix operators in 4 templates, every ordered "
                 "pair of 29 statement shapes of the fragment x 3 separators (+ a three-statement form), 12000 (thorough 300000) random programs of the fragment grammar with "
                 "redundant and necessary parentheses, 1500 (30000) programs of the general grammar. non-trivial = non-empty program in the fragment in at least one mode."
